@@ -12,6 +12,7 @@ Oracle: DESIGN.md section 4 (C15), clauses 1-5; expectations come from the
 """
 
 import copy
+import zlib
 
 from .. import carriers, workload
 from ..common import NEUTRAL_WORLD, OpView, cached_run, done, event_digest, run, solo, tree_bytes, violation
@@ -113,11 +114,25 @@ def _request(sc, files, paths, plan=None, record_sites=False, world=None):
     links = {alias: source for alias, source in (sc.get("links") or {}).items() if source in files}
     if links:
         request["links"] = links
+    moved = {name: _real_name(name) for name in sc.get("symlinked") or [] if name in files}
+    if moved:
+        # the document named on the command line is a symbolic link; its real file lives in
+        # a directory that no argument names
+        files = dict(files)
+        for name, real in moved.items():
+            files[real] = files.pop(name)
+        request["files"] = files
+        request["symlinks"] = moved
+        request["curfile_via_symlink"] = True
     if plan:
         request["plan"] = plan
     if record_sites:
         request["record_sites"] = True
     return request
+
+
+def _real_name(name):
+    return "zz_real/" + name.replace("/", "_")
 
 
 # ---------------------------------------------------------------- generation
@@ -512,6 +527,12 @@ def generate(rng, tier, index):
         # some documents are known under a second name (hard link outside the scanned set)
         for name in rng.sample(sorted(files), rng.choice([1, len(files)])):
             sc.setdefault("links", {})["zz_links/%s.alias" % name.replace("/", "_")] = name
+    pick = zlib.crc32(repr((index, sorted(files), flags, mode)).encode("utf-8"))
+    if mode == "fix" and not use_api and not sc.get("links") and pick % 6 == 0:
+        # some documents are symbolic links (decided without drawing from the PRNG, so the
+        # other workloads of a seed stay what they were)
+        ordered = sorted(files)
+        sc["symlinked"] = ordered if pick % 12 == 0 else [ordered[(pick // 12) % len(ordered)]]
     if rng.random() < 0.05:  # a natural parser failure somewhere in the list
         name = rng.choice(sorted(files))
         sc["files"][name] = {"b64": b64(carriers.NATURAL_PARSER_FAIL["natural_dash_tab"])}
@@ -722,7 +743,7 @@ def _judge(sc, fault, stats):
 
     # clause 4: no temporary files after an in-process fault
     if kind in ("cb", "parse", "prov", "undecodable", "oserror", "interrupt"):
-        new_in_work = sorted(set(work_after) - set(names) - set(sc.get("links") or {}))
+        new_in_work = sorted(set(work_after) - set(names) - set(sc.get("links") or {}) - set(_real_name(n) for n in sc.get("symlinked") or []))
         left = len(tmp_after) + len(new_in_work)
         if kind == "oserror" and site.split("/")[1] in ("remove", "rename") and (left == 1 or fault["plan"].get("sticky")):
             # the injected error was the refusal to remove/rename that very file (sticky:
@@ -786,6 +807,8 @@ def evaluate(sc):
         stats["through_api"] += 1
     if sc.get("shape"):
         stats["shape:" + sc["shape"]] += 1
+    if sc.get("symlinked"):
+        stats["shape:symlinked_documents"] += 1
     if sc.get("links"):
         stats["hard_linked_documents"] += 1
     return {"violations": violations, "evals": evals, "digests": digests, "stats": dict(stats), "faults": dict(faults)}
